@@ -1,6 +1,7 @@
 package props
 
 import (
+	"encoding/hex"
 	"fmt"
 	"sort"
 	"strings"
@@ -100,6 +101,21 @@ func genC07(r *rt.Rand, tier string, idx int) *world.Scenario {
 		}
 	}
 	sc.Extra["second_compaction"] = int64(r.Intn(3)) // 0 none, 1 same revision, 2 current
+	// the compaction scan is split along the engine's partitions: borders on index records and inside
+	// keys' versions, from the seam (any engine) or as real regions of the TiKV mock cluster
+	if h%3 == 1 {
+		rp := rt.NewRand(rt.Mix(rt.MixStr(BaseSeed, "C07-partitions"), uint64(h)))
+		for i := 0; i < 1+rp.Intn(3); i++ {
+			b := simkv.EncodeKey([]byte(keys[rp.Intn(len(keys))]), []uint64{0, sc.InitRev + uint64(1+rp.Intn(n))}[rp.Intn(2)])
+			sc.Parts = append(sc.Parts, hex.EncodeToString(b))
+		}
+		sc.Class += "+partitions"
+		if h%12 == 4 {
+			sc.Engine, sc.MetricsKV = "tikv", false
+			sc.Extra["tikv_regions"] = 1
+			sc.Class += "(tikv regions)"
+		}
+	}
 	sc.MaxSteps = 40000
 	return sc
 }
